@@ -257,7 +257,11 @@ func (x *Exec) flatten(v Val) []*Term {
 		return []*Term{x.ptrTerm(v)}
 	case *FuncV:
 		if len(v.Bindings) > 0 || v.Recv != nil {
-			unsupported("closure with captured variables stored or merged as a first-class value (%v)", v.Fn)
+			// a closure / bound method stored as a first-class value: memory keeps an opaque non-nil function id (its
+			// bindings are not representable; a later call through the stored value is a call of an unknown function)
+			id := x.sc.fresh(SInt, "closure")
+			x.sc.assume(not(eq(id, tZero)))
+			return []*Term{id}
 		}
 		return []*Term{v.Id}
 	case *SliceV:
